@@ -203,6 +203,219 @@ def gen_output(rng, tier, P):
         yield {"a": name, "exec": e, "text": t, "wrap": w, "exact": ex}
 
 
+# --------------------------------------------------------------------------------------
+# histories: the asserted operand is produced in the middle of a sequence of executions (steps: assertions_gen)
+
+# clear_sandbox() histories (before /repo 31d4e77 every assertion on a result made after clear_sandbox() raised
+# IndexError); VERIF_C07_CLEAR_SANDBOX=0 switches the stream off
+HIST_CLEAR_SANDBOX = os.environ.get("VERIF_C07_CLEAR_SANDBOX", "1") == "1"
+HA, HB = "Hello there", "Goodbye now"
+SMALL_STEPS = [["open"], ["close"], ["clear_output"], ["say", HA], ["say", HB], ["quiet"], ["boom"]]
+HIST_TEXTS = [HA, HB, "", "a\nb", "b\na", "Ab.", "a b ", "a\rb", "caat", "1", "hello there", "x\r"]
+RAW_TEXTS = ["", "x", "x\n", "x\n\n", "x\r\n", "a\nb", HA]        # written with print(text, end="")
+OUTPUT_DISTINCT = [n for n in ac.OUTPUT if n != "assert_prints"]
+
+
+def well_formed(steps):
+    depth = 0
+    for st in steps:
+        if st[0] == "open":
+            depth += 1
+        elif st[0] == "close":
+            if depth == 0:
+                return False
+            depth -= 1
+    return True
+
+
+def hist_probes(steps):
+    """the operands a history offers to an output assertion: the result of every execution, and the Sandbox"""
+    return [i for i, st in enumerate(steps) if st[0] in ag.EXEC_KINDS] + ["sandbox"]
+
+
+def gen_history_corpus(tier):
+    """small scope, exhaustive: every well-formed history of up to 3 (thorough: 4) steps over open / close /
+    clear_output / two calls that print different lines / a silent call / a failing call; every operand it offers;
+    every output assertion with the text the operand's own execution printed and with the other line"""
+    names = OUTPUT_DISTINCT if tier == "quick" else ac.OUTPUT
+    for n in range(1, (3 if tier == "quick" else 4) + 1):
+        for steps in itertools.product(SMALL_STEPS, repeat=n):
+            steps = [list(st) for st in steps]
+            if not well_formed(steps) or not any(st[0] in ag.EXEC_KINDS for st in steps):
+                continue
+            for on in hist_probes(steps):
+                own = ac.chomp(ag.hist_expect(steps, on)[0])
+                for text in (own, HB if own == HA else HA):
+                    for name in names:
+                        yield {"a": name, "wrap": "r", "hist": steps, "on": on, "text": text, "exact": False}
+
+
+def random_step(rng, depth):
+    r = rng.random()
+    if r < 0.12:
+        return ["open"]
+    if r < 0.22 and depth:
+        return ["close"]
+    if r < 0.28:
+        return ["clear_output"]
+    if r < 0.52:
+        return ["say", rng.choice(HIST_TEXTS)]
+    if r < 0.58:
+        return ["sayraw", rng.choice(RAW_TEXTS)]
+    if r < 0.64:
+        return ["quiet"]
+    if r < 0.71:
+        return ["boom"]
+    if r < 0.76:
+        return ["sayboom", rng.choice(HIST_TEXTS)]
+    if r < 0.82:
+        return ["evalsay", rng.choice(HIST_TEXTS)]
+    if r < 0.85:
+        return ["eval"]
+    if r < 0.90:
+        return ["runcode", rng.choice(HIST_TEXTS)]
+    if r < 0.93:
+        return ["rerun"]
+    if r < 0.96:
+        return ["missing"]
+    return ["getitem"]
+
+
+def random_steps(rng, n):
+    steps, depth = [], 0
+    for _ in range(n):
+        st = random_step(rng, depth)
+        depth += (st[0] == "open") - (st[0] == "close")
+        steps.append(st)
+    return steps
+
+
+def gen_history_random(rng, tier):
+    """longer histories over the whole step vocabulary (nested blocks, evaluate, run of instructor code, the student
+    program again, output without a final newline, a call that prints and then fails, a call of a missing function,
+    variable lookups), several probes each: any operand, any output assertion, exact or not, raw or proxied text"""
+    n, per = (260, 8) if tier == "quick" else (9000, 12)
+    for _ in range(n):
+        steps = random_steps(rng, rng.randrange(2, 8))
+        probes = hist_probes(steps)
+        printed = sorted({ac.chomp(ag.step_effect(st)[0]) for st in steps if st[0] in ag.EXEC_KINDS})
+        cases = []
+        for _ in range(per):
+            on = rng.choice(probes)
+            own = ac.chomp(ag.hist_expect(steps, on)[0])
+            r = rng.random()
+            text = (own if r < 0.5 else rng.choice(printed) if r < 0.8 and printed else
+                    ac.chomp(ag.hist_expect(steps, "sandbox")[0]) if r < 0.9 else rng.choice(TEXTS))
+            cases.append({"a": rng.choice(ac.OUTPUT), "wrap": rng.choice("rrp"), "hist": steps, "on": on,
+                          "text": text, "exact": rng.random() < 0.3})
+        cases.sort(key=lambda c: c["wrap"])       # raw texts first: a new text proxy restarts the history
+        for c in cases:
+            yield c
+
+
+NOISE = [["boom"], ["say", HA], ["quiet"], ["open"], ["close"], ["clear_output"], ["missing"], ["getitem"], ["eval"],
+         ["sayboom", HB], ["runcode", HA]]
+HOWS = ["ident", "ident", "evalv", "getv"]
+
+
+def value_history(rng, name, wrap, boom_side=None):
+    """steps that produce the operands of a value assertion among other executions"""
+    def noise(k):
+        return [list(rng.choice(NOISE)) for _ in range(k)]
+    steps = noise(rng.randrange(0, 3))
+    sides = [("L", wrap[0])] + ([("R", wrap[1])] if name not in ac.UNARY else [])
+    if rng.random() < 0.5:
+        sides.reverse()
+    for side, w in sides:
+        if w == "p":
+            steps.append([side, "boom" if side == boom_side else rng.choice(HOWS)])
+            steps += noise(rng.randrange(0, 3))
+    if not well_formed(steps):
+        steps = [st for st in steps if st[0] != "close"]
+    return steps
+
+
+def gen_value_history(rng, tier, P):
+    """every assertion family on operands made by call / evaluate / lookup before, between and after other executions
+    (failed ones included), inside open blocks, after closed ones; also the result of an earlier failed call"""
+    reprable = [i for i in range(P.n) if P.shape[i] not in ("type", "object", "error")
+                and not (P.shape[i] == "tuple" and any(isinstance(x, type) for x in P.raw[i]))]
+    # fixed part: one holding and one failing pair per family under a fixed set of histories
+    fixed = [("assert_equal", 1, 1), ("assert_equal", 1, 2), ("assert_not_equal", 1, 2), ("assert_less", 1, 2),
+             ("assert_less", 2, 1), ("assert_in", "a", "abc"), ("assert_in", "z", "abc"), ("assert_true", 1, None),
+             ("assert_true", 0, None), ("assert_is_none", None, None), ("assert_is_none", 0, None),
+             ("assert_length_equal", [1], 1), ("assert_length_equal", [1], 2), ("assert_is_instance", 1, int),
+             ("assert_is_instance", "a", int), ("assert_regex", "a+", "caat"), ("assert_regex", "z", "caat"),
+             ("assert_contains_subset", [1], [1, 2]), ("assert_false", 0, None), ("assert_is_not_none", 0, None)]
+    shapes = [lambda l, r: [["open"], ["boom"]] + l + r, lambda l, r: l + [["boom"]] + r, lambda l, r: l + r + [["boom"]],
+              lambda l, r: [["open"]] + l + [["close"]] + r, lambda l, r: [["open"], ["say", HA]] + l + [["say", HB]] + r,
+              lambda l, r: l + [["open"]] + r + [["missing"]], lambda l, r: [["open"], ["open"]] + r + [["close"]] + l,
+              lambda l, r: [["getitem"]] + l + [["getitem"]] + r + [["clear_output"]]]
+    for name, l, r in fixed:
+        for how in ("ident", "evalv", "getv"):
+            for k, shp in enumerate(shapes):
+                unary = name in ac.UNARY
+                wrap = "p" if unary else ("pp" if isinstance(r, (int, str, list)) and not isinstance(r, type) else "pr")
+                steps = shp([["L", how]], [] if unary or wrap[1] == "r" else [["R", how]])
+                d = {"a": name, "wrap": wrap, "l": _v(l), "history": steps}
+                if not unary:
+                    d["r"] = _v(r)
+                yield {"a": name, "wrap": wrap, "desc": d, "vhist": steps}
+    n = 900 if tier == "quick" else 30000
+    names = ac.ORDER + ac.MEMBER + ac.IDENT + ac.LENGTH + ac.EQUAL + ac.REGEX + ac.UNARY
+    for _ in range(n):
+        name = rng.choice(names)
+        ls, rs = relevant(P, name)
+        ls = [i for i in ls if i in reprable] or reprable
+        rs = [i for i in rs if i in reprable] or reprable
+        wrap = "p" if name in ac.UNARY else rng.choice(("pr", "rp", "pp"))
+        boom_side = rng.choice("LR") if rng.random() < 0.1 else None
+        case = {"a": name, "li": rng.choice(ls), "wrap": wrap, "vhist": value_history(rng, name, wrap, boom_side)}
+        if name not in ac.UNARY:
+            case["ri"] = case["li"] if rng.random() < 0.1 else rng.choice(rs)
+        yield case
+
+
+def case_label(case):
+    """where the asserted operand stands in its history (None for a case without one)"""
+    if "hist" in case:
+        return ag.hist_label(case["hist"], case["on"])
+    d = case.get("desc") or {}
+    if "history" in d and "on" in d:
+        return ag.hist_label(d["history"], d["on"])
+    steps = case.get("vhist") or d.get("history")
+    if not steps:
+        return None
+    sides = [sd for sd in "LR" if any(st[0] == sd for st in steps)]
+    return " & ".join(sd + ":" + ag.hist_label(steps, sd) for sd in sides) if sides else None
+
+
+_hist_text_proxy = {}
+_in_clear_stream = [False]
+
+
+def hist_operands(name, steps, on, text, wrap, exact):
+    t = text
+    if wrap == "p":
+        if text not in _hist_text_proxy:
+            ag.end_history()            # making the proxy is itself an execution: do it before the history starts
+            _hist_text_proxy[text] = ac.proxy_of(text)
+        t = _hist_text_proxy[text]
+    out = ag.live_history(steps)
+    a = ac.get_sandbox() if on == "sandbox" else out["ops"][on]
+    printed, failed = ag.hist_expect(steps, on)
+    return name, a, t, {"exact": exact}, {"printed": printed, "failed": failed}
+
+
+def vhist_operands(name, steps, lo, ro, wrap, kw):
+    out = ag.run_history(steps, lo, ro)
+    a = out["L"] if any(st[0] == "L" for st in steps) else lo
+    if name in ac.UNARY:
+        return name, a, None, kw, {}
+    b = out["R"] if any(st[0] == "R" for st in steps) else ro
+    return name, a, b, kw, {}
+
+
 _exec_cache = {}
 
 
@@ -221,8 +434,15 @@ _text_proxy = {}
 def materialise(case, P):
     """(name, a, b, kwargs for run_real/oracle/request_line)"""
     name = case["a"]
+    if "hist" in case:
+        return hist_operands(name, case["hist"], case["on"], case["text"], case["wrap"], case["exact"])
+    ag.end_history()
     if "desc" in case:
         return from_description(case["desc"])
+    if "vhist" in case:
+        kw = {"exact": case.get("exact", False), "delta": case.get("delta")} if name in ac.EQUAL else {}
+        return vhist_operands(name, case["vhist"], P.raw[case["li"]], P.raw[case["ri"]] if "ri" in case else None,
+                              case["wrap"], kw)
     if "exec" in case:
         a, printed = execution(case["exec"])
         t = TEXTS[case["text"]]
@@ -257,6 +477,11 @@ def describe(case, P):
     if "desc" in case:
         return case["desc"]
     d = {"a": case["a"], "wrap": case["wrap"]}
+    if "hist" in case:
+        d.update({"history": case["hist"], "on": case["on"], "text": case["text"], "exact": case["exact"]})
+        return d
+    if "vhist" in case:
+        d["history"] = case["vhist"]
     if "exec" in case:
         d["execution"] = list(ag.EXECUTIONS[case["exec"]])
         d["text"] = TEXTS[case["text"]]
@@ -276,6 +501,18 @@ def from_description(d):
     """rebuild operands from a replay description: (name, a, b, kw, okw)"""
     ac.setup()
     name = d["a"]
+    if d.get("after_clear_sandbox") and not _in_clear_stream[0]:
+        from pedal.sandbox.commands import clear_sandbox
+        ag.end_history()
+        clear_sandbox()
+        ac.run()
+    if "history" in d and "on" in d:
+        return hist_operands(name, d["history"], d["on"], d["text"], d["wrap"], d["exact"])
+    if "history" in d:
+        lo = ac.build(d["l"])
+        ro = None if "r" not in d else (lo if d.get("same_object") else ac.build(d["r"]))
+        kw = {k: d[k] for k in ("exact", "delta") if k in d} if name in ac.EQUAL else {}
+        return vhist_operands(name, d["history"], lo, ro, d["wrap"], kw)
     if "execution" in d:
         a, printed = ag.make_execution(*d["execution"])
         t = d["text"]
@@ -314,7 +551,7 @@ def pair_outcomes(name, a, b, kw):
     return ac.run_real(name, a, b, **kw), ac.run_real(COUNTERPART[name], a, b, **kw)
 
 
-def sig_of(name, real, want, a, b, wrap):
+def sig_of(name, real, want, a, b, wrap, hist=None):
     if real.startswith("escapes"):
         kind = "escapes"
     elif real == "inconsistent":
@@ -324,6 +561,8 @@ def sig_of(name, real, want, a, b, wrap):
     sig = {"assertion": name, "kind": kind, "left": ac.shape(a), "wrap": wrap}
     if name not in ac.UNARY:
         sig["right"] = ac.shape(b) if not isinstance(b, ag.ac.rt.Sandbox) else "sandbox"
+    if hist:
+        sig["history"] = hist
     return sig
 
 
@@ -347,7 +586,11 @@ def gen_unit(rng, tier, P):
             else:
                 expected = rng.choice(vals)
             rows.append([j, stored, expected])
-        yield {"rows": rows, "partial": rng.random() < 0.3}
+        case = {"rows": rows, "partial": rng.random() < 0.3}
+        if rng.random() < 0.5:
+            # unit_test in the middle of a history: earlier executions, a failed one, an open CommandBlock
+            case["pre"] = random_steps(rng, rng.randrange(1, 5))
+        yield case
 
 
 def run_unit(case, P):
@@ -355,6 +598,10 @@ def run_unit(case, P):
     unit_test is called the way instructors call it (default assert function); `partial` switches partial credit on,
     which must not change the verdict or the counts."""
     sb = ac.get_sandbox()
+    if case.get("pre"):
+        ag.run_history(case["pre"])
+    else:
+        ag.end_history()
     sb.data["TABLE"] = {j: P.raw[s] for j, s, _ in case["rows"] if s is not None}
     ac.clear_report()
     seen = []
@@ -373,6 +620,7 @@ def run_unit(case, P):
         return {"error": "escapes:" + type(e).__name__}, seen
     finally:
         ac.clear_report()
+        ag.end_history()
 
 
 def oracle_unit(case, P):
@@ -587,7 +835,8 @@ def eqtest_stream(rng, tier, P, driver, res):
 # correspondence
 
 def all_cases(rng, tier, P):
-    return itertools.chain(corpus_cases(P), gen_unary(rng, tier, P), gen_output(rng, tier, P),
+    return itertools.chain(corpus_cases(P), gen_history_corpus(tier), gen_unary(rng, tier, P), gen_output(rng, tier, P),
+                           gen_history_random(rng, tier), gen_value_history(rng, tier, P),
                            gen_equal_options(rng, tier, P), gen_spelling(rng, tier, P),
                            gen_after_failure(rng, tier, P), gen_binary(rng, tier, P))
 
@@ -721,7 +970,8 @@ def correspond(rng, tier, driver):
                 continue
             if real == "silent":
                 res.nontrivial.add((name, case.get("li"), case.get("ri"), case.get("exec"), case.get("text"),
-                                    json.dumps(case["desc"], sort_keys=True) if "desc" in case else None))
+                                    json.dumps(case["desc"], sort_keys=True) if "desc" in case else None,
+                                    repr(case.get("hist") or case.get("vhist")), case.get("on")))
             if model != real:
                 res.disagreements.append({"case": describe(case, P), "real": real, "model": model, "request": line})
             elif spec in ("silent", "fires") and want != "either" and spec != want:
@@ -736,6 +986,10 @@ def correspond(rng, tier, driver):
         want = want_of(name, a, b, kw, okw)
         results.append((case, real, want))
         res.count("assertion:" + name)
+        label = case_label(case)
+        if label:
+            for part in label.split(" & "):
+                res.count("history:" + part.split(":")[-1])
         line = ag.request_line(name, a, b, **kw, **okw)
         if line is None:
             res.count("unencodable")
@@ -745,6 +999,7 @@ def correspond(rng, tier, driver):
         if len(lines) >= CHUNK:
             flush()
     flush()
+    ag.end_history()
     res.samples = [describe(c, P) for c, _, _ in results[-3:]]
     # unit_test
     units = []
@@ -821,7 +1076,7 @@ def search(rng, tier, broken, corr):
             continue
         if real != want:
             name, a, b, kw, okw = materialise(case, P)
-            sig = sig_of(name, real, want, a, b, case["wrap"])
+            sig = sig_of(name, real, want, a, b, case["wrap"], case_label(case))
             d = describe(case, P)
             key = json.dumps(sig, sort_keys=True)
             size = len(json.dumps(d))
@@ -831,6 +1086,12 @@ def search(rng, tier, broken, corr):
                 what = "%s(%s%s%s) [%s] is %s but the relation %s" % (
                     name, _short(a), "" if name in ac.UNARY else ", " + _short(b), opts, case["wrap"], real,
                     "holds" if want == "silent" else "does not hold / cannot be evaluated")
+                if "history" in d:
+                    what += "; operands made in the history %s" % json.dumps(d["history"])
+                    if "on" in d:
+                        what += (", left operand = %s, whose execution printed %r%s" % (
+                            "the Sandbox" if d["on"] == "sandbox" else "result of step %d" % d["on"],
+                            okw.get("printed"), " and failed" if okw.get("failed") else ""))
                 best[key] = (size, Failure(sig, what, {"case": d, "real": real, "expected": want}))
     # unit_test
     units = getattr(corr, "units", None)
@@ -852,7 +1113,7 @@ def search(rng, tier, broken, corr):
                 rows = [[j, None if s is None else P.specs[s], P.specs[e]] for j, s, e in case["rows"]]
                 best[key] = (size, Failure(sig, "unit_test on %d cases returned %s, expected %s" % (
                     len(case["rows"]), real, want), {"unit_test_rows": rows, "partial_credit": bool(case.get("partial")),
-                                                     "real": real, "expected": want}))
+                                                     "pre": case.get("pre"), "real": real, "expected": want}))
     # assert_type
     for vi, w, name, real, want in run_type_cases():
         info["evaluations"] += 1
@@ -875,10 +1136,67 @@ def search(rng, tier, broken, corr):
                 best[key] = (5000, Failure(sig, "%s(%s) [%s] is %s, expected %s" % (name, label, w, real, want),
                                            {"class_type_case": label, "wrap": w, "assertion": name, "real": real,
                                             "expected": want}))
+    # clear_sandbox() histories (last: they invalidate every proxy made so far)
+    if HIST_CLEAR_SANDBOX:
+        for d, real, want in clear_sandbox_stream():
+            info["evaluations"] += 1
+            info["after_clear_sandbox"] = info.get("after_clear_sandbox", 0) + 1
+            if want != "either" and real != want:
+                kind = ("escapes" if real.startswith("escapes") else "inconsistent" if real == "inconsistent" else
+                        "false-pass" if real == "silent" else "false-fail")
+                sig = {"assertion": "any", "kind": kind, "history": "after clear_sandbox"}
+                key = json.dumps(sig, sort_keys=True)
+                size = len(json.dumps(d))
+                if key not in best or size < best[key][0]:
+                    best[key] = (size, Failure(sig, "after clear_sandbox(); run(): %s on operands made in the history %s "
+                                               "is %s, expected %s" % (d["a"], json.dumps(d["history"]), real, want),
+                                               {"case": d, "real": real, "expected": want}))
+    else:
+        info["after_clear_sandbox"] = "not visited (switched off by VERIF_C07_CLEAR_SANDBOX=0)"
     info["distinct_nontrivial"] = len(nt)
     info["samples"] = [json.loads(x) for x in list(nt)[:2]]
     failures = [f for _, f in sorted(best.values(), key=lambda x: x[0])]
     return failures[:12], info
+
+
+def clear_sandbox_stream():
+    """clear_sandbox(); run(); then assertions on operands made afterwards (value and output assertions, with and
+    without earlier executions / an open block).  Must run LAST: every proxy made before it is dangling afterwards.
+    -> [(description, real, want)]"""
+    global _pool
+    from pedal.sandbox.commands import clear_sandbox
+    rows = []
+    _in_clear_stream[0] = True
+    values = [("assert_equal", 1, 1), ("assert_equal", 1, 2), ("assert_true", 1, None), ("assert_true", 0, None),
+              ("assert_in", "a", "abc"), ("assert_less", 2, 1), ("assert_is_none", None, None),
+              ("assert_length_equal", [1], 1), ("assert_regex", "z", "caat")]
+    try:
+        for prefix in ([], [["say", HA]], [["open"], ["boom"]], [["say", HA], ["open"], ["say", HA]]):
+            ag.end_history()
+            clear_sandbox()
+            ac.run()
+            for name, l, r in values:
+                d = {"a": name, "wrap": "p" if name in ac.UNARY else "pr", "l": _v(l), "history": prefix + [["L", "ident"]],
+                     "after_clear_sandbox": True}
+                if name not in ac.UNARY:
+                    d["r"] = _v(r)
+                nm, a, b, kw, okw = from_description(d)
+                rows.append((d, ac.run_real(nm, a, b, **kw), want_of(nm, a, b, kw, okw)))
+            steps = prefix + [["say", HB]]
+            for name in OUTPUT_DISTINCT:
+                for text in (HB, HA):
+                    d = {"a": name, "wrap": "r", "history": steps, "on": len(steps) - 1, "text": text, "exact": False,
+                         "after_clear_sandbox": True}
+                    nm, a, b, kw, okw = from_description(d)
+                    rows.append((d, ac.run_real(nm, a, b, **kw), want_of(nm, a, b, kw, okw)))
+    finally:
+        _in_clear_stream[0] = False
+        ag.end_history()
+        _pool = None                    # its proxies refer to executions the sandbox has forgotten
+        _exec_cache.clear()
+        _text_proxy.clear()
+        _hist_text_proxy.clear()
+    return rows
 
 
 def _short(v):
@@ -938,6 +1256,8 @@ def replay(payload):
         ac.setup()
         sb = ac.get_sandbox()
         rows = rp["unit_test_rows"]
+        if rp.get("pre"):
+            ag.run_history(rp["pre"])
         sb.data["TABLE"] = {j: ac.build(s) for j, s, _ in rows if s is not None}
         extra = {"partial_credit": True} if rp.get("partial_credit") else {}
         ok = ac.unit_test("table", *[([j], ac.build(e)) for j, _, e in rows], **extra)
